@@ -181,6 +181,141 @@ def run_process(env, main_factory, opts=None, *, keep_log=False, quiesce=True):
     return res
 
 
+class Proc:
+    """A long-lived simulated process (a program that keeps its Repository object between
+    commands): one Sched + one loop; between two commands every thread of it is parked and other
+    processes of the universe may run."""
+
+    def __init__(self, env, opts=None, *, keep_log=False):
+        install.install_once()
+        self.opts = opts = opts or SchedOpts()
+        self.env = env
+        env.procs += 1
+        seed = int.from_bytes(substream(env.seed, f'proc{env.procs}').randbytes(6), 'big')
+        self.s = s = core.Sched(seed, preempt_p=opts.preempt_p, timer_p=opts.timer_p, policy=opts.policy,
+                                sticky_p=opts.sticky_p, step_cap=opts.step_cap, time_cap=opts.time_cap,
+                                start_time=env.now, keep_log=keep_log)
+        s.hot_p = getattr(opts, 'hot_p', 0.0)
+        s.suspended = True
+        self.loop = None
+        self.module_state = None
+        self.dead = False
+
+    def _enter(self):
+        import replicat.utils as U
+        gc.disable()
+        s = self.s
+        install.begin(s, self.env)
+        if self.module_state is None:
+            self.module_state = (U._async_auth_glock, U._async_auth_locks, U._sync_auth_locks)
+        else:
+            U._async_auth_glock, U._async_auth_locks, U._sync_auth_locks = self.module_state
+        s.suspended = False
+        s.by_thread[__import__('threading').get_ident()] = s.tasks[0]
+        if s.now < self.env.now:
+            s.now = self.env.now          # other processes ran meanwhile
+        if self.loop is None:
+            self.loop = core.SimLoop(s)
+
+    def _leave(self):
+        self.s.suspended = True
+        install.end()
+        self.env.now = max(self.env.now, self.s.now)
+
+    def run(self, main_factory):
+        """One command inside the live process: `await main_factory(result)` on its loop."""
+        if self.dead:
+            raise core.HarnessError('command sent to a dead process')
+        s = self.s
+        res = ProcResult()
+        before = s.stats()
+        s.step_cap = s.steps + self.opts.step_cap
+        s.time_cap = (s.now - s.start_time) + self.opts.time_cap
+        out, err = io.StringIO(), io.StringIO()
+        raised = None
+        self._enter()
+        try:
+            with contextlib.redirect_stdout(out), contextlib.redirect_stderr(err):
+                try:
+                    res.value = self.loop.run_until_complete(main_factory(res))
+                    if not s.aborting:
+                        self.loop.run_until_complete(_settle(s))
+                except core.SimAbort:
+                    pass
+                except BaseException as e:  # noqa
+                    raised = e
+                    if not s.aborting:
+                        try:
+                            self.loop.run_until_complete(_settle(s))
+                        except core.SimAbort:
+                            pass
+        finally:
+            self._leave()
+        err_obj = s.error
+        if err_obj is not None:
+            self.close()
+        if isinstance(err_obj, core.SimCrash):
+            res.crashed = True
+        elif isinstance(err_obj, (core.SimDeadlock, core.SimLivelock)):
+            res.hang = err_obj
+        elif isinstance(err_obj, core.HarnessError):
+            raise err_obj
+        elif err_obj is not None and raised is None:
+            raised = err_obj
+        if raised is not None and not res.crashed and res.hang is None:
+            if isinstance(raised, core.HarnessError):
+                raise raised
+            res.exc = raised
+        after = s.stats()
+        res.stats = {k: (after[k] - before[k] if isinstance(after[k], (int, float)) and k != 'tasks' else after[k]) for k in after}
+        res.digest = s.digest()
+        res.events = s.events
+        res.stdout, res.stderr = out.getvalue(), err.getvalue()
+        gc.collect()
+        return res
+
+    def close(self):
+        if self.dead:
+            return
+        self.dead = True
+        s = self.s
+        s.suspended = False
+        try:
+            s.shutdown()
+        finally:
+            s.suspended = True
+            if self.loop is not None:
+                try:
+                    self.loop.close()
+                except Exception:  # noqa
+                    pass
+            self.loop = None
+        gc.collect()
+
+
+async def _settle(s):
+    """After a command of a live process: nothing is cancelled (the program goes on), but work
+    that is already under way (executor jobs, backend calls in flight, tasks the command left
+    behind) gets the time it would get in reality before anybody looks at the store."""
+    import asyncio
+    loop = asyncio.get_running_loop()
+    me = asyncio.current_task()
+
+    def idle(t):
+        return t.state == core.DONE or (t.state == core.BLOCKED and t.deadline is None and t.what == 'queue.get')
+
+    for _ in range(400):
+        await asyncio.sleep(0)
+        threads_idle = all(idle(t) for t in s.tasks[1:])
+        tasks_left = [t for t in asyncio.all_tasks(loop) if t is not me and not t.done()]
+        if threads_idle and not tasks_left and len(loop._ready) == 0:
+            return
+        if not threads_idle:
+            s.block_until(lambda: all(idle(t) for t in s.tasks[1:]) or bool(loop._ready), timeout=0.5, what='settle')
+        else:
+            await asyncio.sleep(0.05)
+
+
 def _task_order(t):
     name = t.get_name()
     try:
